@@ -711,6 +711,7 @@ func stageClassificationRule(c *Ctx, r *Report, p *Prov, rule string) {
 		return
 	}
 	r.Analysed["search_classifier"] = classifier.Name()
+	searchClassifierAgreesRule(c, r, classifier, rule)
 	n := 0
 	for f := range p.Zone {
 		for _, call := range callsIn(f, func(k string, cc *ssa.Call) bool { return cc.Call.StaticCallee() == sw }) {
